@@ -395,9 +395,9 @@ def rebuild(kind, n, witness):
             u.arm(w[2], w[3])
             w = w[1]
         try:
-            with core.time_limit(5):
+            with core.time_limit(3):
                 u.apply(w)
-        except Exception:  # noqa - a refused call may be part of a witness (it can flip hidden bits)
+        except (Exception, core.CaseTimeout):  # noqa - a refused call may be part of a witness (it can flip hidden bits)
             pass
         u.raise_at = frozenset()
         u.persist = None
@@ -410,14 +410,17 @@ def execute(kind, n, witness, op, pre=None, raise_at=(), persist=None, snap=Fals
     ex.kind, ex.n, ex.op, ex.raise_at, ex.persist, ex.u = kind, n, op, tuple(raise_at), persist, u
     ex.hid_pre = u.hidden()
     ex.pre = pre
+    from . import traps
+
+    del traps.TRAPLOG[:]  # special-method invocations are attributed to the call under test, not to the witness replay
     u.arm(raise_at, persist, snap, reenter)
     ex.exc = None
     ex.mro = ()
     try:
-        with core.time_limit(5):
+        with core.time_limit(3):
             u.apply(op)
         ex.outcome = "ok"
-    except Exception as exc:  # noqa - everything the call raises is an observation
+    except (Exception, core.CaseTimeout) as exc:  # noqa - everything the call raises is an observation
         ex.outcome = "InjectedFault" if isinstance(exc, InjectedFault) else type(exc).__name__
         ex.exc = exc
         ex.mro = tuple(c.__name__ for c in type(exc).__mro__)
